@@ -3,6 +3,7 @@ import TrackVerif.Common.Dec
 import TrackVerif.GPMF.Model
 import TrackVerif.GPMF.Spec
 import TrackVerif.Generated.GPMF
+import TrackVerif.GPMF.Walk
 /-
   Line-protocol side of the GPMF area (C06, C07, C09 reader half, C16).
 
@@ -98,8 +99,44 @@ def handleRead (mode hex : String) (impl : List String) : String :=
       else if mode == "wf" then s!"VIOL clause=gm.read spec={rS.take 3000}"
       else s!"CORR clause=gm.read_mut model={rS.take 400}"
 
+/-! ### walk -/
+
+mutual
+partial def roseOf (n : Nat) : Elem Float → Walk.Rose Nat × Nat
+  | .mk _ _ _ _ _ nested =>
+    let r := roseOfL (n + 1) nested
+    (.node n r.1, r.2)
+partial def roseOfL (n : Nat) : List (Elem Float) → List (Walk.Rose Nat) × Nat
+  | [] => ([], n)
+  | e :: es =>
+    let r := roseOf n e
+    let rs := roseOfL r.2 es
+    (r.1 :: rs.1, rs.2)
+end
+
+def handleWalk (hex skip stop : String) (impl : List String) : String :=
+  match bytesOfHex hex with
+  | none => "BAD"
+  | some bs =>
+    if impl.head? = some "panic" then "VIOL clause=gm.walk_no_panic" else
+    match (readAll Spec.expectedTables bs : Outcome (List (Elem Float))) with
+    | .ok es =>
+      let (forest, n) := roseOfL 0 es
+      let skips : List Nat := if skip == "~" then [] else (skip.splitOn ",").filterMap String.toNat?
+      let stopAt : Option Nat := if stop == "-" then none else stop.toNat?
+      let fn : Nat → Walk.Act := fun i =>
+        if some i == stopAt then .stop else if skips.contains i then .skip else .cont
+      let r := Walk.walkL fn forest
+      let v := if r.1.isEmpty then "~" else String.intercalate "," (r.1.map toString)
+      let want := s!"{if r.2 then "stopped" else "ok"} n={n} v={v}"
+      let nt := if n ≥ 3 then "1" else "0"
+      if String.intercalate " " impl == want then s!"OK cls=walk nt={nt}"
+      else s!"VIOL clause=gm.walk spec={want.take 600}"
+    | _ => if impl == ["readerr"] then "OK cls=err nt=0" else "SKIP reason=read"
+
 def handle (args : List String) (impl : List String) : String :=
   match args with
+  | ["walk", hex, skip, stop] => handleWalk hex skip stop impl
   | ["read", mode, hex] => handleRead mode hex impl
   | _ => "BAD"
 
